@@ -32,6 +32,11 @@ def run(tier, seed, res, lean):
         problems += suite_neutral.run_two_storages(seed * 17 + i)
     for i in range(12 if tier == 'quick' else 100):
         problems += suite_neutral.run_ids_order(seed * 29 + i)
+    # pickling the compiled function (in this process and into a fresh interpreter) changes no persistent digest: the pipelines of
+    # S-PICKLE (keyword bindings, dataset-wide layers that keep a static graph hash, caches)
+    from .. import suite_pickle
+    _, pk = suite_pickle.run_check(seed + 3)
+    problems += [dict(p, msg='pickling: ' + p['msg']) for p in pk if 'digests' in p.get('msg', '')]
     from .. import suite_hash
     ef = pmap(_explicit_shard, [(seed * 619 + i + 3, 8 if tier == 'quick' else 60) for i in range(8)])
     problems += [p for o in ef for p in o[1] if p.get('kind') == 'silent-changes-hash']
